@@ -170,10 +170,24 @@ func (p *simpleExpressionPlanner) analyze() {
 }
 
 func (p *simpleExpressionPlanner) analyzeCond(exp *traceql_parser.AttrSelectorExp) *condition {
-	var res *condition
 	if exp == nil {
 		return nil
 	}
+	// the parser delivers `a && b || c` as the right-nested chain a, && (b, || (c));
+	// && binds tighter than ||: the runs of &&-ed heads are the operands of the ||
+	var ors, ands []*condition
+	for ; exp != nil; exp = exp.Tail {
+		ands = append(ands, p.analyzeHead(exp))
+		if exp.AndOr != "&&" || exp.Tail == nil {
+			ors = append(ors, joinConds("&&", ands))
+			ands = nil
+		}
+	}
+	return joinConds("||", ors)
+}
+
+func (p *simpleExpressionPlanner) analyzeHead(exp *traceql_parser.AttrSelectorExp) *condition {
+	var res *condition
 	if exp.ComplexHead != nil {
 		res = p.analyzeCond(exp.ComplexHead)
 	} else if exp.Head != nil {
@@ -186,14 +200,14 @@ func (p *simpleExpressionPlanner) analyzeCond(exp *traceql_parser.AttrSelectorEx
 			res = &condition{simpleIdx: len(p.termIdx) - 1}
 		}
 	}
-	if exp.Tail != nil {
-		res = &condition{
-			simpleIdx: -1,
-			op:        exp.AndOr,
-			complex:   []*condition{res, p.analyzeCond(exp.Tail)},
-		}
-	}
 	return res
+}
+
+func joinConds(op string, conds []*condition) *condition {
+	if len(conds) == 1 {
+		return conds[0]
+	}
+	return &condition{simpleIdx: -1, op: op, complex: conds}
 }
 
 func (p *simpleExpressionPlanner) analyzeAgg() {
